@@ -348,6 +348,21 @@ def turn_cases(draw):
 # ------------------------------------------------------------------------------------------------ execution of one turn
 
 
+def _is_subsequence(part, full):
+    it = iter(full)
+    return all(any(x == y for y in it) for x in part)
+
+
+def _positional_reference(writer, reflmod, ctx, cfg, entries):
+    """(id, ts, stored text) per POSITION of `entries` from a fault-free write of the same candidates into an empty
+    index (malformed candidates replaced by a well-formed placeholder so that every position is written)."""
+    cand = [e if isinstance(e, dict) else {"text": f"placeholder {k}", "tags": ["reflection"], "kind": "summary"}
+            for k, e in enumerate(entries)]
+    idx = world.build_index([])
+    writer.write_reflection_entries(ctx, {"memory_index": idx}, cfg, reflmod.ReflectionResult(summary="", memory_entries=cand, metrics={}))
+    return [(e[0], e[3], e[2]) for e in world.index_digest(idx)["eps"]]
+
+
 class _PlainResult:
     """What a custom reflect stage may return instead of the frozen dataclass: a plain object with the three attributes."""
 
@@ -407,6 +422,7 @@ class Spy:
             self.raised = type(e).__name__
             raise
         self.produced = [str((e or {}).get("text", "")) for e in (res.memory_entries or [])]
+        self.entries = copy.deepcopy(list(res.memory_entries or []))
         self.summary = res.summary
         return res
 
@@ -869,6 +885,16 @@ def check_turns(case, rec=None):
                     tl.append("clock=just-under-budget")
                 if t["write"] is not None and oon["add_calls"]:
                     tl.append("fault=write" + (":partial" if oon["add_ok"] else ""))
+                    ents = getattr(spy, "entries", None)
+                    if oon["add_ok"] and ents and t["ops"] is not None and not case.get("split_index"):
+                        from clematis.engine.orchestrator import reflection as writer
+                        ref = _positional_reference(writer, reflmod, oon["ctx"], oon["ctx"].cfg, ents)
+                        part = [(e[0], e[3], e[2]) for e in oon["new"]]
+                        if not _is_subsequence(part, ref):
+                            raise Violation(f"{where}: after a partial write failure the surviving entries {part} are not the entries the "
+                                            f"fault-free write of the same candidates puts at their positions {ref}", case, "id-not-pure")
+                        if len(ref) >= 2:
+                            tl.append("fault=write:partial:ids-vs-fault-free")
                 if oon["whole_hits"]:
                     tl.append("fault=write:entry-point")
                 if oon["pre_hits"]:
@@ -1065,6 +1091,12 @@ def unit_cases(draw):
               "wstate": draw(st.sampled_from(["dict", "object", "dict+mem_index"])),
               "ctx_iso": draw(st.sampled_from([True, True, False])),  # ctx.now_iso as run_turn sets it, or only now / now_ms
               "warm": draw(st.sampled_from([True, True, False])),  # the same bundle reflected under loose limits first
+              # partial write failure: index.add fails for some candidates and not for others (pattern per add call), and
+              # candidates at some positions are malformed (None / not a dict) -- the survivors keep their positional ids
+              "wfault": draw(st.one_of(st.none(), st.fixed_dictionaries({
+                  "pattern": st.one_of(st.just([True, False]), st.just([True, False, False]), st.lists(st.booleans(), min_size=1, max_size=5)),
+                  "exc": st.sampled_from(EXC_NAMES[:7]), "malformed": st.lists(st.integers(0, 3), max_size=2, unique=True),
+                  "bad": st.sampled_from([None, "not a dict", 7])}))),
               "extras": draw(st.lists(st.sampled_from(_ENTRY_EXTRAS), max_size=3))})
     return k
 
@@ -1165,6 +1197,43 @@ def check_unit(case, rec=None):
                     labels.append("writer-raises:" + type(e).__name__)  # run_turn guards the call; allowed
                 got.append(world.index_digest(idx_w)["eps"] + world.index_digest(idx_other)["eps"])
             labels.append("writer-state=" + shapes[0])
+            wf = case.get("wfault")
+            if wf:
+                cand = copy.deepcopy(list(padded.memory_entries))
+                for pos in wf["malformed"]:
+                    if pos < len(cand):
+                        cand[pos] = wf["bad"]
+                try:
+                    ref = _positional_reference(writer, reflmod, ctx, cfg, cand)
+                except Exception:
+                    ref = None  # the writer cannot run with this configuration at all (ops null): nothing to compare
+                if ref is not None:
+                    idx_f = world.build_index([])
+                    calls = {"n": 0}
+                    real_add = type(idx_f).add
+                    fexc = _exc_types()[wf["exc"]]
+
+                    def add(*a, **kw):
+                        k = calls["n"]
+                        calls["n"] += 1
+                        if wf["pattern"][k % len(wf["pattern"])]:
+                            raise fexc("injected index failure")
+                        real_add(idx_f, a[0] if a else dict(kw))
+                    idx_f.add = add
+                    try:
+                        writer.write_reflection_entries(ctx, {"memory_index": idx_f}, cfg,
+                                                        reflmod.ReflectionResult(summary=res.summary, metrics={}, memory_entries=cand))
+                    except Exception as e:
+                        labels.append("writer-raises:" + type(e).__name__)
+                    part = [(e[0], e[3], e[2]) for e in world.index_digest(idx_f)["eps"]]
+                    if not _is_subsequence(part, ref):
+                        raise Violation(f"after a partial write failure (add pattern {wf['pattern']}, malformed candidates at {wf['malformed']}) "
+                                        f"the surviving entries {part} are not the entries the fault-free write of the same candidates "
+                                        f"puts at their positions {ref}", case, "id-not-pure")
+                    if part and len(part) < len(ref):
+                        labels.append("partial-write:survivors-checked")
+                        if part[0] != ref[0]:
+                            labels.append("partial-write:first-slot-lost")
             new = got[0]
             if case["ops"] is not None and len(new) > case["ops"]:
                 raise Violation(f"writer stored {len(new)} entries with ops_reflection={case['ops']}", case, "ops-cap-exceeded")
